@@ -31,7 +31,9 @@ PROFILES = {
             (['m12'], FX, 250, 2500, None),
             (['m13'], FX, 250, 2500, None),
             (['m07'], LONG, 30, 300, None)],
-    'C06': [(['m01', 'm02', 'm03', 'm08', 'm10', 'm11'], PLAIN, 150, 1500, None)],
+    'C06': [(['m01', 'm02', 'm03', 'm08', 'm10', 'm11'], PLAIN, 150, 1500, None),
+            # 'on the machine on which process_event was called': calls made on a nested machine (from its own behaviours)
+            (['m01', 'm03', 'm10'], dict(effects=0.35, effect_api='p', effect_targets='s'), 80, 800, None)],
     'C07': [(['m01', 'm03', 'm05', 'm10'], PLAIN, 200, 2000, None),
             (['m01', 'm03'], FXL, 80, 800, None)],
     'C08': [(['m04', 'm05'], PLAIN, 300, 3000, None),
@@ -71,7 +73,7 @@ RULES = {
 }
 
 
-GEN_PROPS = {'C01': PLAIN, 'C02': PLAIN, 'C04': FX, 'C06': PLAIN, 'C07': PLAIN, 'C12': FAIL}
+GEN_PROPS = {'C01': PLAIN, 'C02': PLAIN, 'C04': FX, 'C06': PLAIN, 'C07': PLAIN, 'C08': PLAIN, 'C10': FX, 'C12': FAIL}
 
 
 def gen_machines(tier, seed):
